@@ -80,10 +80,39 @@ def r_lexer_mode(prog, rep):
 
     def mode_of(c):
         return expr_str(core(arg_nodes(c)[0])).split("::")[-1] if arg_nodes(c) else "?"
+    def lambda_restores(f, call):
+        """a call of a local lambda (`fail(message, /*resetMode=*/true)`) switches back when, with the literal arguments it is given, every path
+        through the lambda passes setMode(None)"""
+        if call.get("k") != "call" or call.get("op") != "()" or "obj" not in call:
+            return False
+        o = core(call.child("obj"))
+        if o is None or o.get("k") != "ref":
+            return False
+        lam = None
+        for d in f.nodes:
+            if d.get("k") == "decl":
+                for v in d.get("vars", []):
+                    if v.get("did") == o.get("did") and "init" in v:
+                        for x in f.nodes[v["init"]].walk():
+                            if x.get("k") == "lambda":
+                                lam = prog.lambda_fn(x)
+        if lam is None:
+            return False
+        nn = [c for c in lam.calls("Lexer::setMode") if mode_of(c) == "None"]
+        if not nn:
+            return False
+        env = {}
+        for prm, a in zip(lam.params, arg_nodes(call)):
+            ca = core(a) if a is not None else None
+            if ca is not None and ca.get("k") == "bool" and prm.get("n"):
+                env[prm["n"]] = bool(ca.get("v"))
+        np_ = set(cfg.pos_of(lam, c) for c in nn)
+        return cfg.reach_under(lam, env, lambda p, e: e == "EXIT", lambda p, e: p in np_) is None
     restoring = set()
     for f in fns:
         nones = [c for c in f.calls("Lexer::setMode") if mode_of(c) == "None"]
-        if nones and cfg.must_pass_through(f, cfg.entry_pos(f), lambda p, e, f=f, nones=nones: any(cfg.elem_node(f, e) is c for c in nones))[0]:
+        lcalls = [c for c in f.calls() if lambda_restores(f, c)]
+        if (nones or lcalls) and cfg.must_pass_through(f, cfg.entry_pos(f), lambda p, e, f=f, nones=nones + lcalls: any(cfg.elem_node(f, e) is c for c in nones))[0]:
             restoring.add(f.key)
     n = 0
     for f in sorted(fns, key=lambda g: g.line):
@@ -99,7 +128,7 @@ def r_lexer_mode(prog, rep):
                     return False
                 if x.get("k") == "call" and (x.get("fn") or "").endswith("Lexer::setMode"):
                     return True
-                return x.get("k") == "call" and x.get("fk") in restoring
+                return x.get("k") == "call" and (x.get("fk") in restoring or lambda_restores(f, x))
             w = cfg.path_exists(f, cfg.pos_of(f, c), cfg.is_exit, avoid=settles)
             r.check(w is None, "%s|%s@%d" % (f.name.split("::")[-1], mode_of(c), sum(1 for c2 in sets if c2.line < c.line and mode_of(c2) == mode_of(c))), "",
                     "the lexer can be left in %s mode when %s returns" % (mode_of(c), f.name.split("::")[-1]), f, c)
